@@ -215,9 +215,12 @@ type c10Batch struct {
 func runC10(rc *RunCtx, i int) {
 	r := rc.CaseRand(i)
 	timeCase := i%5 == 4
+	// mixed: limits reachable AND a short MaxBufferedTime: a tail batch left below the limits
+	// after limit-triggered flushes must still be flushed by the time trigger
+	mixedCase := i%5 == 2
 	lateStart := i%7 == 3
 	maxBuf := time.Hour
-	if timeCase {
+	if timeCase || mixedCase {
 		maxBuf = time.Duration(r.Range(150, 400)) * time.Millisecond
 	}
 	var spec gen.EngineSpec
@@ -250,7 +253,7 @@ func runC10(rc *RunCtx, i int) {
 		e.Start()
 	}
 	defer env.w.Close()
-	desc := map[string]any{"case": env.w.Case, "engine": spec, "max_buffered_time": maxBuf.String(), "late_start": lateStart}
+	desc := map[string]any{"case": env.w.Case, "engine": spec, "max_buffered_time": maxBuf.String(), "late_start": lateStart, "mixed": mixedCase}
 	rr := r.Split("rows")
 	var pending []*c10Batch
 	// model of the engine's buffers
@@ -364,6 +367,13 @@ func runC10(rc *RunCtx, i int) {
 		}
 	}
 	desc["steps"] = steps
+	if mixedCase && !timeCase && len(pending) > 0 {
+		rc.Res.Count("mixed_tail_cases", 1)
+		if !waitAll(maxBuf + 10*time.Second) {
+			rc.Violate(i, "time-trigger-no-flush", "", fmt.Sprintf("after limit-triggered flushes, %d tail batches below the limits were accepted, no Flush or Stop was called, and they were not answered within MaxBufferedTime (%s) + 10 s", len(pending), maxBuf), desc)
+			return
+		}
+	}
 	if timeCase && len(pending) > 0 {
 		rc.Res.Count("time_trigger_cases", 1)
 		rc.Res.Nontrivial("time", maxBuf, len(pending), fmt.Sprint(steps))
